@@ -253,3 +253,20 @@ Definition odk_step_replied (p : port) (reply : msg -> option msg)
           end
       end
   end.
+
+(* The bridge serving a stream of requests: one call per scripted answer ([None] = the bus stays silent), each starting
+   where the last one left the port.  What each call returned and forwarded, and the port at the end. *)
+Fixpoint odk_run (p : port) (answers : list (option msg))
+  : option (list (result oerr unit * option msg) * port) :=
+  match answers with
+  | [] => Some ([], p)
+  | a :: rest =>
+      match odk_step_replied p (fun _ => a) with
+      | None => None
+      | Some (res, p', fwd) =>
+          match odk_run p' rest with
+          | None => None
+          | Some (l, p'') => Some ((res, fwd) :: l, p'')
+          end
+      end
+  end.
